@@ -28,6 +28,24 @@ class Obj2(object):
         return 'Obj2(%s)' % ', '.join('%s=%r' % kv for kv in sorted(self.__dict__.items()))
 
 
+class HostileEq(object):
+    """A service value whose == is not a plain bool (array-like: element-wise comparison, ambiguous truth value)."""
+
+    def __init__(self, **kw):
+        self.__dict__.update(kw)
+
+    def __eq__(self, other):
+        raise ValueError('The truth value of a HostileEq is ambiguous')
+
+    def __ne__(self, other):
+        raise ValueError('The truth value of a HostileEq is ambiguous')
+
+    __hash__ = object.__hash__
+
+    def __repr__(self):
+        return 'HostileEq(%s)' % ', '.join('%s=%r' % kv for kv in sorted(self.__dict__.items()))
+
+
 class UserError(Exception):
     """Ordinary exception raised by generated service code."""
 
@@ -195,7 +213,10 @@ def _gen(rng, depth, shared, multi_sets=True):
         # list (object.__getstate__ exists there), so graphs WITH identity sharing only get objects with atom fields
         v = Obj(**{'f%d' % i: (gen_hashable(rng, 0) if shared is not None else _gen(rng, depth - 1, shared, multi_sets)) for i in range(n)})
     elif k == 5:
-        v = Obj2(a=gen_hashable(rng, 1) if shared is not None else _gen(rng, depth - 1, shared, multi_sets))
+        if rng.random() < 0.25:
+            v = HostileEq(a=gen_hashable(rng, 0), n=rng.randrange(5))
+        else:
+            v = Obj2(a=gen_hashable(rng, 1) if shared is not None else _gen(rng, depth - 1, shared, multi_sets))
     else:
         v = [_gen(rng, depth - 1, shared, multi_sets) for _ in range(n)]
     if shared is not None and rng.random() < 0.3:
